@@ -513,8 +513,20 @@ func (u *Unit) execNext(st *State, fr *Frame, in *ssa.Next) {
 	it := u.val(st, in.Iter)
 	tt := in.Type().(*types.Tuple)
 	ok := u.freshVal(st, "nxt_ok", tBool)
-	k := u.freshVal(st, "nxt_k", tt.At(1).Type())
-	v := u.freshVal(st, "nxt_v", tt.At(2).Type())
+	kt, vt := tt.At(1).Type(), tt.At(2).Type()
+	if it.Inner != nil && it.Inner.T != nil {
+		// an unused key / value has the invalid type in the tuple: take the map's own types
+		if mt, isMap := it.Inner.T.Underlying().(*types.Map); isMap {
+			if b, ok := kt.(*types.Basic); ok && b.Kind() == types.Invalid {
+				kt = mt.Key()
+			}
+			if b, ok := vt.(*types.Basic); ok && b.Kind() == types.Invalid {
+				vt = mt.Elem()
+			}
+		}
+	}
+	k := u.freshVal(st, "nxt_k", kt)
+	v := u.freshVal(st, "nxt_v", vt)
 	if it.Inner != nil {
 		x := *it.Inner
 		if rg, isR := in.Iter.(*ssa.Range); in.IsString && isR && st.iters[rg] != "" {
